@@ -54,6 +54,11 @@ class Sandbox:
         os.symlink("nonexistent", os.path.join(t, "root/dangling.liquid"))
         os.symlink("root", os.path.join(t, "rootlink"))
         os.symlink("../../outside/secret.liquid", os.path.join(t, f"{PKG}/templates/link.liquid"))
+        # links into a SIBLING whose name starts with the root's name (root -> rootx): "is it under the root" must be decided on
+        # path components, not on a string prefix
+        w("rootx/sib.liquid", "LINKED:rootx/sib.liquid")
+        os.symlink("../rootx/sib.liquid", os.path.join(t, "root/siblink.liquid"))
+        os.symlink("../rootx", os.path.join(t, "root/sibdir"))
         if t not in sys.path:
             sys.path.insert(0, t)
         sys.modules.pop(PKG, None)
@@ -209,7 +214,7 @@ def g_obs(o, intern):
 # ----------------------------------------------------------------------------- names
 LONG255, LONG256, LONG248 = "a" * 255, "b" * 256, "c" * 248
 POOL_SMALL = ["", ".", "..", "a", "sub", "index", "index.liquid", "page", "secret.liquid", "decoy", "outside",
-              "link.liquid", "linkdir", "dir.liquid", "root", "templates"]
+              "link.liquid", "linkdir", "dir.liquid", "root", "templates", "siblink.liquid", "sibdir", "sib.liquid"]
 POOL = POOL_SMALL + ["deep", "index.txt", "page.liquid", "x.liquid", "link", "inlink", "inlink.liquid", "loop", "dangling",
                      "dangling.liquid", "dir", "...", "..a", ".hidden", "a.", "noext", "other", "other.liquid", "é",
                      "é.liquid", "日本", "a\x00b", "\x00", "\n", "a\tb", "\x7f", "\udc80", "\ud800", " ",
